@@ -800,8 +800,88 @@ func (c *Ctx) panicRule(rule string, fns []*ssa.Function, suppress map[string]st
 			}
 		}
 	}
+	// T5b: Must* helpers hidden behind a third-party call. A call from the closure into a non-standard-library
+	// dependency whose own code (same module, depth ≤ 3) applies a Must* helper to a non-constant value panics on
+	// malformed input just as a direct Must* call would; the protobuf runtime is excluded (its Must* sites are on
+	// descriptors, not on message contents).
+	nExt := 0
+	extCache := map[*ssa.Function]string{}
+	var hiddenMust func(g *ssa.Function, mod string, depth int, seen map[*ssa.Function]bool) string
+	hiddenMust = func(g *ssa.Function, mod string, depth int, seen map[*ssa.Function]bool) string {
+		if g == nil || g.Blocks == nil || seen[g] || depth > 3 {
+			return ""
+		}
+		seen[g] = true
+		for _, b := range g.Blocks {
+			for _, in := range b.Instrs {
+				call, ok := in.(*ssa.Call)
+				if !ok {
+					continue
+				}
+				cal := call.Call.StaticCallee()
+				if cal == nil {
+					continue
+				}
+				if strings.HasPrefix(cal.Name(), "Must") && cal.Signature.Recv() == nil {
+					for _, a := range call.Call.Args {
+						if _, isK := a.(*ssa.Const); !isK {
+							return cal.String() + " in " + g.String()
+						}
+					}
+				}
+				if cal.Pkg != nil && strings.HasPrefix(cal.Pkg.Pkg.Path(), mod) {
+					if w := hiddenMust(cal, mod, depth+1, seen); w != "" {
+						return w
+					}
+				}
+			}
+		}
+		return ""
+	}
+	for _, f := range fns {
+		for _, call := range callsIn(f, func(call ssa.CallInstruction) bool {
+			cal := call.Common().StaticCallee()
+			if cal == nil || cal.Pkg == nil || load.FuncInRepo(cal) {
+				return false
+			}
+			path := cal.Pkg.Pkg.Path()
+			first := strings.SplitN(path, "/", 2)[0]
+			return strings.Contains(first, ".") && !strings.HasPrefix(path, "google.golang.org/protobuf") && !strings.HasPrefix(path, "golang.org/x/")
+		}) {
+			cal := call.Common().StaticCallee()
+			nExt++
+			w, done := extCache[cal]
+			if !done {
+				parts := strings.Split(cal.Pkg.Pkg.Path(), "/")
+				mod := strings.Join(parts[:minInt(3, len(parts))], "/")
+				w = hiddenMust(cal, mod, 0, map[*ssa.Function]bool{})
+				extCache[cal] = w
+			}
+			if w == "" {
+				continue
+			}
+			hasInput := false
+			for _, a := range call.Common().Args {
+				if _, isK := a.(*ssa.Const); !isK {
+					hasInput = true
+				}
+			}
+			if !hasInput {
+				continue
+			}
+			c.S.Bad(rule+"b", load.FuncName(f)+":"+cal.Name(), c.pos(call.Pos()), "this dependency function applies "+w+" to a value it is given: malformed input handed to it panics instead of returning an error")
+		}
+	}
+	c.S.Count("third_party_calls_examined", nExt)
 	c.S.Floor(rule, "panic constructs examined", 0, n)
-	c.S.OK(rule, "closure:panic constructs", "", fmt.Sprintf("%d explicit panic / Must* sites examined", n), false)
+	c.S.OK(rule, "closure:panic constructs", "", fmt.Sprintf("%d explicit panic / Must* sites examined; %d calls into third-party code checked for hidden Must* helpers", n, nExt), false)
+}
+
+func minInt(a, b int) int {
+	if a < b {
+		return a
+	}
+	return b
 }
 
 // parsedBefore: a Must<Parse>(x) call whose operand's access path was handed to the
